@@ -394,19 +394,19 @@ theorem restarted_ok (σ : State) (cfg : List (Nid × Host × Bool)) : Inv (rest
       simp at hst
   · intro h t ht; simp [restarted] at ht
 
-theorem Code.fixed_msgLike : Code.fixed.msgLike := ⟨rfl, rfl⟩
 theorem Code.current_msgLike : Code.current.msgLike := ⟨rfl, rfl⟩
+theorem Code.before192a092_msgLike : Code.before192a092.msgLike := ⟨rfl, rfl⟩
 
 /-- With the saturating subtraction the initial Subscribe can always be built. -/
-theorem initialSince_fixed (σ : State) : ∃ t, initialSince Code.fixed σ = some t := by
+theorem initialSince_fixed (σ : State) : ∃ t, initialSince Code.current σ = some t := by
   unfold initialSince
   cases σ.lastOnline with
   | none => exact ⟨_, rfl⟩
   | some last => exact ⟨_, rfl⟩
 
-theorem step_ok (env : Env) {σ : State} (h : Inv σ) (op : Op) : Good (step Code.fixed env σ op) := by
+theorem step_ok (env : Env) {σ : State} (h : Inv σ) (op : Op) : Good (step Code.current env σ op) := by
   cases op with
-  | recv r m => exact handleMessage_ok Code.fixed Code.fixed_msgLike env h r m
+  | recv r m => exact handleMessage_ok Code.current Code.current_msgLike env h r m
   | connectIn r ho ro p =>
     obtain ⟨t, ht⟩ := initialSince_fixed σ
     simp only [step, connectedInbound, ht]
@@ -415,7 +415,7 @@ theorem step_ok (env : Env) {σ : State} (h : Inv σ) (op : Op) : Good (step Cod
   | restart cfg => exact good_ok (restarted_ok σ cfg)
 
 theorem run_ok (envs : Nat → Env) {σ : State} (h : Inv σ) (ops : List Op) (i : Nat) :
-    ∀ o, o ∈ run Code.fixed envs σ ops i → ∀ s, o ≠ .panic s := by
+    ∀ o, o ∈ run Code.current envs σ ops i → ∀ s, o ≠ .panic s := by
   induction ops generalizing σ i with
   | nil => intro o ho; simp [run] at ho
   | cons op ops ih =>
